@@ -389,6 +389,10 @@ func h10CheckOne(r YangRange, lo, hi mInt, fd int, what string) {
 // min/max (or the single value); mode 3: both bounds arbitrary literals.
 func h10uBase(both bool) {
 	bs := h10Bases()
+	if both {
+		// two arbitrary literals: the extreme types only (the others differ in their constants)
+		bs = []h10Base{bs[0], bs[3], bs[7], bs[8]}
+	}
 	b := bs[symChoice(len(bs))]
 	var text string
 	var lo, hi mInt
